@@ -337,6 +337,10 @@ func realParse(seq []string) (accepted bool, pan any) {
 
 // sub-check 3: language and tree shape, over every token sequence up to the bound that is a viable prefix
 // for the real tables or for the reference tables
+var errSuffixes = [][]string{{}, {";"}, {"}"}, {"}}"}, {")"}, {"]"}, {">"}, {"IDENT"}, {"|"}, {"}", ";"}, {"}}", ";"}}
+
+var errLen = 7
+
 func checkLanguage(r *ev.Run, t *lrref.Table, maxLen, realLen int) {
 	_, _, prods, _, _ := parser.VerifGrammar()
 	var seq []string
@@ -406,6 +410,20 @@ func checkLanguage(r *ev.Run, t *lrref.Table, maxLen, realLen int) {
 				}
 			}
 			if !oi && !or {
+				// the real driver (scanner + Parser.Parse) on a sequence that the grammar cannot continue with k: it must
+				// reject it, whatever follows (nothing, one more token, a closing token)
+				if mine && len(seq) >= 3 && len(seq) <= errLen {
+					for _, suffix := range errSuffixes {
+						bad := append(append(append([]string{}, seq...), k), suffix...)
+						got, pan := realParse(bad)
+						r.Add("real_driver_runs", 1)
+						r.Add("real_driver_runs_after_an_error_token", 1)
+						if pan == nil && got {
+							r.Report("", fmt.Sprintf("text %q: Parser.Parse accepts a token sequence that the documented grammar cannot continue after %q", render(bad), seq),
+								map[string]any{"Kind": "sequence", "Seq": bad})
+						}
+					}
+				}
 				continue
 			}
 			seq = append(seq, k)
@@ -466,6 +484,7 @@ func main() {
 	maxLen, realLen := 9, 6
 	if !r.Quick() {
 		maxLen, realLen = 11, 7
+		errLen = 8
 	}
 	if r.Replay != "" {
 		var in struct {
@@ -514,7 +533,7 @@ func main() {
 		checkRegeneration(r)
 	}
 	if r.Fork(16) {
-		r.Set("rule", "sub-checks 1,2,4 are complete (grammar data, every table cell incl. out-of-range states and foreign symbols, byte-wise regeneration); sub-check 3 enumerates every token sequence over the 22 token kinds up to the length bound that is a viable prefix for the embedded tables or for the LALR(1) tables built from the documentation; states = sequences visited, transitions = feed steps; non-trivial = accepted sequence; distinct by sequence")
+		r.Set("rule", "sub-checks 1,2,4 are complete (grammar data, every table cell incl. out-of-range states and foreign symbols, byte-wise regeneration); sub-check 3 enumerates every token sequence over the 22 token kinds up to the length bound that is a viable prefix for the embedded tables or for the LALR(1) tables built from the documentation; every viable prefix up to 7 (quick) / 8 tokens followed by a token the grammar cannot continue with and by 11 continuations (nothing, closing tokens, an operand) goes through the real scanner and driver, which must reject it; states = sequences visited, transitions = feed steps; non-trivial = accepted sequence; distinct by sequence")
 		r.Set("states", r.Get("sequences"))
 		r.Set("transitions", r.Get("sequences")*len(kinds))
 		r.Set("traces_validated_against_impl", r.Get("sequences"))
@@ -524,6 +543,7 @@ func main() {
 	r.Set("exhaustive", true)
 	r.Set("bound_sequence_length", maxLen)
 	r.Set("bound_sequence_length_real_driver", realLen)
+	r.Set("bound_prefix_length_before_an_error_token_real_driver", errLen)
 	checkLanguage(r, t, maxLen, realLen)
 	checkScaling(r, t)
 	r.Assume("the documented grammar and precedence list are transcribed in ref/ebnfref (Heads/Bodies) and cmd/c04 (levels); the reference LALR(1) construction is ref/lrref; the recursive-descent recogniser is ref/ebnfref.ParseTokens")
